@@ -33,6 +33,7 @@ func msgTypeName(m consensus.Message) string {
 // runSequence feeds the messages of one peer to the victim's consensus reactor and applies the five-stage oracle.
 func (v *victim) runSequence(t ev.TB, rep reporter, ws []wire, caseText func() string) (info seqInfo) {
 	cs := v.nd.CS
+	acct = newAccount(false)
 	peer := newPeer()
 	v.conR.InitPeer(peer)
 	if err := v.sw.VerifC18AddPeer(peer); err != nil {
@@ -50,9 +51,7 @@ func (v *victim) runSequence(t ev.TB, rep reporter, ws []wire, caseText func() s
 		info.changed = v.fingerprint() != v.fp
 	}()
 	probes := append([]lockProbe{probeMutex("consensus.PeerState.mtx", ps.VerifC18Mtx())}, v.probes...)
-	total := 0
 	for i, w := range ws {
-		total += len(w.data)
 		// what the product's decoder makes of it (generator health only; Receive decodes again itself)
 		var dm consensus.Message
 		if _, fr := ev.Try(func() { dm, _ = consensus.VerifC18DecodeMsg(w.data) }); fr != "" {
@@ -86,7 +85,7 @@ func (v *victim) runSequence(t ev.TB, rep reporter, ws []wire, caseText func() s
 			if pm, ok := mi.Msg.(*consensus.ProposalMessage); ok && uint64(pm.Proposal.POLBlockID.PartsHeader.Total)*8 > allocSlack && r.alloc >= uint64(pm.Proposal.POLBlockID.PartsHeader.Total)*8 {
 				akey = "alloc.proposal-partset-total"
 			}
-			if !oracle(t, rep, fmt.Sprintf("handleMsg(%s) of message %d", msgTypeName(mi.Msg), i), akey, r, len(w.data), probes, caseText) {
+			if !oracle(t, rep, fmt.Sprintf("handleMsg(%s) of message %d", msgTypeName(mi.Msg), i), akey, r, 0, probes, caseText) {
 				info.abandoned = true
 				return
 			}
@@ -120,7 +119,7 @@ func (v *victim) runSequence(t ev.TB, rep reporter, ws []wire, caseText func() s
 			v.conR.VerifC18GossipDataForCatchup(rs, prs, ps, peer)
 		}
 	})
-	if !oracle(t, rep, "gossip helpers (gossipVotesForHeight / gossipDataForCatchup)", "alloc.consensus.gossip", r, total, probes, caseText) {
+	if !oracle(t, rep, "gossip helpers (gossipVotesForHeight / gossipDataForCatchup)", "alloc.consensus.gossip", r, 0, probes, caseText) {
 		info.abandoned = true
 		return
 	}
@@ -142,7 +141,7 @@ func (v *victim) runSequence(t ev.TB, rep reporter, ws []wire, caseText func() s
 	}
 	wg.Wait()
 	for i := range res {
-		if !oracle(t, rep, names[i]+" (runs without recover in production: a panic kills the node)", "alloc.consensus."+names[i], res[i], total, probes, caseText) {
+		if !oracle(t, rep, names[i]+" (runs without recover in production: a panic kills the node)", "alloc.consensus."+names[i], res[i], 0, probes, caseText) {
 			info.abandoned = true
 			return
 		}
